@@ -455,3 +455,133 @@ def propagate_exc(body, callees, ret_zero):
         body = body[:e + 1] + ins + body[e + 1:]
         n += 1
         pos = e + 1 + len(ins)
+
+
+# ---------------------------------------------------------------------------------------------------------------------
+# Control-flow slice of a loop body with respect to a set of loop-carried variables
+# ---------------------------------------------------------------------------------------------------------------------
+def _skip_ws(m, i):
+    while i < len(m) and m[i] in ' \t\r\n':
+        i += 1
+    return i
+
+
+def _stmt_end(m, i):
+    """end (exclusive) of the statement starting at i in masked text m"""
+    i = _skip_ws(m, i)
+    if i >= len(m):
+        return i
+    if m[i] == '{':
+        return match_close(m, i) + 1
+    mo = re.match(r'(if|for|while|switch)\b', m[i:])
+    if mo:
+        p = _skip_ws(m, i + mo.end())
+        if m.startswith('constexpr', p):
+            p = _skip_ws(m, p + 9)
+        if m[p] != '(':
+            raise ExtractionBreak('slice: %s without (' % mo.group(1))
+        e = _stmt_end(m, match_close(m, p) + 1)
+        if mo.group(1) == 'if':
+            q = _skip_ws(m, e)
+            if re.match(r'else\b', m[q:]):
+                e = _stmt_end(m, q + 4)
+        return e
+    if re.match(r'do\b', m[i:]):
+        e = _stmt_end(m, i + 2)
+        q = _skip_ws(m, e)
+        if not m.startswith('while', q):
+            raise ExtractionBreak('slice: do without while')
+        p = m.index('(', q)
+        return m.index(';', match_close(m, p)) + 1
+    if re.match(r'try\b', m[i:]):
+        e = _stmt_end(m, i + 3)
+        while True:
+            q = _skip_ws(m, e)
+            if not re.match(r'catch\b', m[q:]):
+                return e
+            p = m.index('(', q)
+            e = _stmt_end(m, match_close(m, p) + 1)
+    # simple statement (may contain a lambda body or an initialiser list): up to the ';' at nesting depth 0
+    depth = 0
+    j = i
+    while j < len(m):
+        ch = m[j]
+        if ch in '([{':
+            depth += 1
+        elif ch in ')]}':
+            depth -= 1
+        elif ch == ';' and depth == 0:
+            return j + 1
+        j += 1
+    raise ExtractionBreak('slice: unterminated statement')
+
+
+def slice_carried(body, carried, nondet='nondet_verif_bool()'):
+    """body: text of a loop body between its braces (comments stripped).  Returns C text that keeps, of that body, only
+      * the assignments to the variables in `carried` (statements `X = e;`, `X += e;`, `X++;`, `++X;` ...),
+      * `continue;`, `break;` and `return ...;` statements that belong to THIS loop,
+    under the control structure that encloses them, every condition replaced by a nondeterministic choice
+    (an over-approximation of the paths: what the body can do to the carried variables between two evaluations of the loop
+    header).  Anything else is dropped.  A construct the slicer cannot account for (a carried variable assigned inside a
+    nested loop, a lambda, a condition or an argument list) is an extraction break."""
+    names = '|'.join(re.escape(c) for c in carried) or r'(?!x)x'
+    assign_stmt = re.compile(r'\s*(?:(?:\+\+|--)\s*(?:%s)\s*;|(?:%s)\s*(?:\+\+|--|(?:[-+*/%%&|^]|<<|>>)?=(?!=)[^;]*)\s*;)\s*$' % (names, names), re.S)
+    any_assign = re.compile(r'(?<![\w.>])(?:(?:\+\+|--)\s*(?:%s)\b|(?:%s)\s*(?:\+\+|--|(?:[-+*/%%&|^]|<<|>>)?=(?!=)))' % (names, names))
+
+    def seq(text, in_inner_loop):
+        m = mask(text)
+        out = []
+        i = 0
+        while True:
+            i = _skip_ws(m, i)
+            if i >= len(m):
+                break
+            e = _stmt_end(m, i)
+            out.append(one(text[i:e], in_inner_loop))
+            i = e
+        return ''.join(o for o in out if o)
+
+    def one(st, in_inner_loop):
+        m = mask(st)
+        s = m.strip()
+        if s.startswith('{'):
+            inner = seq(st[st.index('{') + 1:st.rindex('}')], in_inner_loop)
+            return '{ %s }' % inner if inner else ''
+        mo = re.match(r'\s*(if|for|while|switch)\b', m)
+        if mo:
+            p = m.index('(', mo.end() - 1)
+            pe = match_close(m, p)
+            if any_assign.search(m[p:pe + 1]):
+                raise ExtractionBreak('slice: carried variable assigned inside a condition / loop header')
+            kw = mo.group(1)
+            be = _stmt_end(m, pe + 1)
+            if kw == 'if':
+                then = one(st[pe + 1:be], in_inner_loop)
+                q = _skip_ws(m, be)
+                els = one(st[q + 4:], in_inner_loop) if re.match(r'else\b', m[q:]) else ''
+                if not then and not els:
+                    return ''
+                return 'if (%s) { %s } else { %s }' % (nondet, then, els)
+            inner = one(st[pe + 1:be], True)
+            if inner:
+                raise ExtractionBreak('slice: carried variable assigned (or return) inside a nested loop / switch')
+            return ''
+        if re.match(r'\s*do\b', m):
+            e = _stmt_end(m, m.index('do') + 2)
+            if one(st[m.index('do') + 2:e], True):
+                raise ExtractionBreak('slice: carried variable assigned (or return) inside a nested loop')
+            return ''
+        if re.match(r'\s*try\b', m):
+            if any_assign.search(m) or re.search(r'\b(continue|break|return)\b', m):
+                raise ExtractionBreak('slice: try block touching the carried variables / leaving the loop')
+            return ''
+        if re.match(r'\s*(continue|break)\s*;\s*$', m):
+            return '' if in_inner_loop else s + ' '
+        if re.match(r'\s*return\b', m):
+            return 'return; '
+        if assign_stmt.match(m):
+            return st.strip() + ' '
+        if any_assign.search(m):
+            raise ExtractionBreak('slice: carried variable assigned inside a compound expression / lambda: %s' % ' '.join(st.split())[:80])
+        return ''
+    return seq(body, False)
